@@ -75,6 +75,8 @@ def faults(r):
         out.append(("misspell-end-tag", r[:s] + f"</{name}X>" + r[e:]))
         out.append(("duplicate-end-tag", r[:e] + f"</{name}>" + r[e:]))
         out.append(("text-after-end-tag", r[:e] + "zz" + r[e:]))
+        out.append(("text-after-end-tag-and-a-blank", r[:e] + " zz" + r[e:]))
+        out.append(("text-on-the-line-after-end-tag", r[:e] + "\n  zz\n" + r[e:]))
     for (s1, e1, n1), (s2, e2, n2) in zip(ends, ends[1:]):
         if n1 != n2 and not r[e1:s2].strip():
             out.append(("transpose-end-tags", r[:s1] + r[s2:e2] + r[e1:s2] + r[s1:e1] + r[e2:]))
@@ -157,7 +159,10 @@ def check_faults(it, fn, a):
 
 
 def cases_c08(tier):
-    return [[t] for t in R.trees(4 if tier == "thorough" else 3)]
+    out = [[t] for t in R.trees(4 if tier == "thorough" else 3)]
+    # vendor (dotted) tags are tags like any other to the body parser: as aggregates and as data elements
+    out += [[t] for t in R.trees(3, agg_tags=("A", "INTU.AG"), leaf_tags=("INTU.B", "B1"), datas=("x",)) if "INTU" in repr(t)]
+    return out
 
 
 class A_(Arg):
